@@ -124,8 +124,8 @@ class BalancedMarket(Strategy):
 
             # balance load over times with same cost
 
-            # get timestep index where vehicle leaves (round down)
-            ts_leave = (vehicle.estimated_time_of_departure - self.current_time) // self.interval
+            # get timestep index where vehicle leaves (round up, as in balanced)
+            ts_leave = -((vehicle.estimated_time_of_departure - self.current_time) // -self.interval)
             # get timesteps where vehicle is present
             vehicle_ts = timesteps[:ts_leave]
             # sort remaining timesteps by price and index
